@@ -128,8 +128,8 @@ def check_public_key_encoding(blob: bytes) -> None:
 
 def checksig(
     vm: Any,
-    sig_pair: tuple[int, int],
-    signature_type: int,
+    sig_pair: tuple[int, int] | None,
+    signature_type: int | None,
     pair_blob: bytes,
     blobs_to_delete: Any,
     sighash_cache: dict[int, Any],
@@ -140,8 +140,11 @@ def checksig(
     if verify_strict:
         check_public_key_encoding(pair_blob)
     if verify_witness_pubkeytype:
-        if pair_blob[0] not in (2, 3) or len(pair_blob) != 33:
+        if len(pair_blob) != 33 or pair_blob[0] not in (2, 3):
             raise ScriptError("uncompressed key in witness", errno.WITNESS_PUBKEYTYPE)
+    if sig_pair is None:
+        # an empty or unparsable signature matches no key
+        return False
     try:
         public_pair = sec_to_public_pair(pair_blob, generator, strict=verify_strict)
     except (ValueError, EncodingError):
@@ -175,7 +178,9 @@ def checksigs(vm: Any, sig_blobs: list[bytes], public_pair_blobs: list[bytes]) -
                 sig_blob, flags, vm
             )
         except (der.UnexpectedDER, ValueError):
-            public_pair_blobs = []
+            # it can match no key, but the keys it is tried against are
+            # still subject to the public key encoding rules
+            sig_pair, signature_type = None, None
         while len(sig_blobs_remaining) < len(public_pair_blobs):
             pair_blob = public_pair_blobs.pop()
             if checksig(
